@@ -347,3 +347,19 @@ def c01g(ctx):
     for o in sub.obs:
         (ctx.ok if o.status == 'ok' else ctx.bad)('%s:%s' % (o.rule, o.construct), o.msg, o.where)
     ctx.stats['functions'] |= sub.stats['functions']
+
+
+@rule('C01.h', floor=10)
+def c01h(ctx):
+    """shared rule, re-evaluated for this property: the tile lookup that decides which stored tiles a map request is composed from keeps
+    the two axes apart (axis discipline of TileGrid / MetaGrid, C03.a) and measures rows from the edge they are anchored at (C03.i) -- with
+    non-square tiles or extents a mixed-up axis composes the map from tiles of other ground positions"""
+    from ..engine import run_property
+    sub = run_property(ctx.repo, 'C03', ctx.tier, only={'C03.a', 'C03.i'})
+    for er in sub.errors:
+        raise Undecided('shared rule %s: %s' % er)
+    for o in sub.obs:
+        if not o.construct.startswith(('TileGrid.', 'MetaGrid.')):
+            continue
+        (ctx.ok if o.status == 'ok' else ctx.bad)('%s:%s' % (o.rule, o.construct), o.msg, o.where)
+    ctx.stats['functions'] |= {q for q in sub.stats['functions'] if 'Grid.' in q}
